@@ -24,7 +24,7 @@ LAWS = {
 
 
 def law_table(name):
-    wt, ct = LAWS[name]
+    wt, ct = LAWS[name.split('@')[0]]
     if ct is None:
         ct = (wt / 0.55) ** -1.5 * 220.0
     return wt, ct
@@ -35,8 +35,12 @@ def law_object(name):
     from sedfitter.extinction import Extinction
     wt, ct = law_table(name)
     e = Extinction()
-    e.wav = wt * u.micron
-    e.chi = ct * u.cm ** 2 / u.g
+    if '@' in name:         # the same law tabulated in another length unit / opacity unit
+        e.wav = (wt * u.micron).to(u.Unit(name.split('@')[1]))
+        e.chi = (ct * u.cm ** 2 / u.g).to(u.m ** 2 / u.kg)
+    else:
+        e.wav = wt * u.micron
+        e.chi = ct * u.cm ** 2 / u.g
     return e
 
 
